@@ -132,6 +132,7 @@ pub fn to_merged<S: Shape>(t: S::Tl) -> MergedTimeline<S::Tl> {
     TimelineOrBuilder::build(t)
 }
 
+#[macro_export]
 macro_rules! as_bits {
     (f32, $v:expr) => {
         ($v).to_bits() as u64
@@ -143,6 +144,7 @@ macro_rules! as_bits {
         ($v) as i64 as u64
     };
 }
+#[macro_export]
 macro_rules! from_bits {
     (f32, $b:expr) => {
         f32::from_bits($b as u32)
@@ -155,46 +157,51 @@ macro_rules! from_bits {
     };
 }
 
+/// `shape_impl!(Target, AnimateType, TimelineType, [animated fields], [other fields])` — implements
+/// [`Shape`] for `Target` using the API that `derive(Animate)` generated on `AnimateType` (the two
+/// differ for `#[animate(remote = "...")]` proxies).
+#[macro_export]
 macro_rules! shape_impl {
-    ($name:ident, $tl:ident, [$($af:ident : $aty:ident = $ak:ident),*], [$($pf:ident : $pty:ident = $pk:ident),*]) => {
-        impl Shape for $name {
+    ($name:ty, $anim:ty, $tl:ty, [$($af:ident : $aty:ident = $ak:ident),*], [$($pf:ident : $pty:ident = $pk:ident),*]) => {
+        impl $crate::shapes::Shape for $name {
             type Tl = $tl;
             const NAME: &'static str = stringify!($name);
-            const KINDS: &'static [Kind] = &[$(Kind::$ak,)* $(Kind::$pk,)*];
+            const KINDS: &'static [$crate::shapes::Kind] = &[$($crate::shapes::Kind::$ak,)* $($crate::shapes::Kind::$pk,)*];
             const FIELDS: &'static [&'static str] = &[$(stringify!($af),)* $(stringify!($pf),)*];
-            const N_ANIM: usize = { let a: &[Kind] = &[$(Kind::$ak,)*]; a.len() };
+            const N_ANIM: usize = { let a: &[$crate::shapes::Kind] = &[$($crate::shapes::Kind::$ak,)*]; a.len() };
 
-            #[allow(unused_assignments)]
+            #[allow(unused_assignments, unused_mut, unused_variables)]
             fn get(&self, i: usize) -> f64 {
                 let mut k = 0usize;
                 $( if i == k { return self.$af as f64; } k += 1; )*
                 $( if i == k { return self.$pf as f64; } k += 1; )*
                 panic!("field index")
             }
-            #[allow(unused_assignments)]
+            #[allow(unused_assignments, unused_mut, unused_variables)]
             fn bits(&self, i: usize) -> u64 {
                 let mut k = 0usize;
-                $( if i == k { return as_bits!($aty, self.$af); } k += 1; )*
-                $( if i == k { return as_bits!($pty, self.$pf); } k += 1; )*
+                $( if i == k { return $crate::as_bits!($aty, self.$af); } k += 1; )*
+                $( if i == k { return $crate::as_bits!($pty, self.$pf); } k += 1; )*
                 panic!("field index")
             }
-            #[allow(unused_assignments)]
+            #[allow(unused_assignments, unused_mut, unused_variables)]
             fn set(&mut self, i: usize, v: f64) {
                 let mut k = 0usize;
                 $( if i == k { self.$af = v as $aty; return; } k += 1; )*
                 $( if i == k { self.$pf = v as $pty; return; } k += 1; )*
                 panic!("field index")
             }
-            #[allow(unused_assignments)]
+            #[allow(unused_assignments, unused_mut, unused_variables)]
             fn set_bits(&mut self, i: usize, b: u64) {
                 let mut k = 0usize;
-                $( if i == k { self.$af = from_bits!($aty, b); return; } k += 1; )*
-                $( if i == k { self.$pf = from_bits!($pty, b); return; } k += 1; )*
+                $( if i == k { self.$af = $crate::from_bits!($aty, b); return; } k += 1; )*
+                $( if i == k { self.$pf = $crate::from_bits!($pty, b); return; } k += 1; )*
                 panic!("field index")
             }
-            #[allow(unused_assignments)]
-            fn build_tl(spec: &TlSpec) -> $tl {
-                let mut b = $name::timeline()
+            #[allow(unused_assignments, unused_mut, unused_variables)]
+            fn build_tl(spec: &$crate::spec::TlSpec) -> $tl {
+                use ::mina::{Animate as _, KeyframeBuilder as _, TimelineConfigurationBuilder as _};
+                let mut b = <$anim>::timeline()
                     .duration_seconds(spec.cycle)
                     .delay_seconds(spec.delay)
                     .repeat(spec.repeat.to_mina())
@@ -203,7 +210,7 @@ macro_rules! shape_impl {
                     b = b.default_easing(e.make());
                 }
                 for kf in &spec.kfs {
-                    let mut k = $name::keyframe(kf.pos);
+                    let mut k = <$anim>::keyframe(kf.pos);
                     let mut idx = 0usize;
                     $( if let Some(v) = kf.vals.get(idx).copied().flatten() { k = k.$af(v as $aty); } idx += 1; )*
                     if let Some(e) = &kf.easing {
@@ -211,10 +218,11 @@ macro_rules! shape_impl {
                     }
                     b = b.keyframe(k);
                 }
-                TimelineBuilder::build(b)
+                ::mina::TimelineBuilder::build(b)
             }
             fn build_from_value(v: &Self, p: f32) -> $tl {
-                TimelineBuilder::build($name::timeline().keyframe($name::keyframe_from(v, p)))
+                use ::mina::{Animate as _, TimelineConfigurationBuilder as _};
+                ::mina::TimelineBuilder::build(<$anim>::timeline().keyframe(<$anim>::keyframe_from(v, p)))
             }
         }
     };
@@ -224,7 +232,7 @@ macro_rules! shape_all {
     ($name:ident, $tl:ident { $($f:ident : $ty:ident = $k:ident),* }) => {
         #[derive(Animate, Clone, Debug, Default, PartialEq)]
         pub struct $name { $(pub $f: $ty),* }
-        shape_impl!($name, $tl, [$($f : $ty = $k),*], []);
+        shape_impl!($name, $name, $tl, [$($f : $ty = $k),*], []);
     };
 }
 
@@ -232,7 +240,7 @@ macro_rules! shape_marked {
     ($name:ident, $tl:ident { $($af:ident : $aty:ident = $ak:ident),* } plain { $($pf:ident : $pty:ident = $pk:ident),* }) => {
         #[derive(Animate, Clone, Debug, Default, PartialEq)]
         pub struct $name { $(#[animate] pub $af: $aty,)* $(pub $pf: $pty),* }
-        shape_impl!($name, $tl, [$($af : $aty = $ak),*], [$($pf : $pty = $pk),*]);
+        shape_impl!($name, $name, $tl, [$($af : $aty = $ak),*], [$($pf : $pty = $pk),*]);
     };
 }
 
